@@ -283,7 +283,7 @@ def check_C05(tier, seed):
 def check_C03(tier, seed):
     v = Verdict("C03", tier, seed)
     exe = build_driver("asan")
-    run_lex(v, exe, cfgs(tier, ["lex_dq_quick.cfg", "lex_dqesc_quick.cfg", "lex_octal_quick.cfg", "lex_sq_quick.cfg", "lex_comment4_quick.cfg",
+    run_lex(v, exe, cfgs(tier, ["lex_dq_quick.cfg", "lex_dqesc_quick.cfg", "lex_octal_quick.cfg", "lex_octal6_quick.cfg", "lex_sq_quick.cfg", "lex_comment4_quick.cfg",
                                 "lex_dqenv_quick.cfg", "lex_env_quick.cfg", "lex_slash_quick.cfg"],
                          ["lex_dq_thorough.cfg", "lex_sq_thorough.cfg", "lex_comment_quick.cfg"]), seed, "C03")
     # strings on the growth steps of the scanner's scratch buffer (lengths the bounded model cannot hold literally)
@@ -309,6 +309,11 @@ def check_C02(tier, seed):
     parsecheck.replay(v, exe, res, aspects={"balance"}, seed=seed, renderings=("canonical",), tag="C02sp",
                       extra_before=["fs dir $R/d1", "searchpath c1 $R/d1"], sigprefix="parse+searchpath")
     stress.run(v, exe, tier, tag="C02")
+    # file-name resolution on one context: found, missing, directory, found again (whatever the lookup says, the context stays usable)
+    from . import spcheck
+    res = run_tlc("MC_SP.tla", os.path.join("mc", "sp_quick.cfg"))
+    v.add_tlc("sp_quick.cfg", res, ["P_C17_DirsNeverMatch"])
+    spcheck.replay(v, exe, res, seed=seed, tag="C02sp2", sigprefix="searchpath", only_balance=True)
     v.cov["exhaustive"] = True
     return v.finish(rule="(a) every byte string up to the length bound over the class representatives of the INITIAL start condition and "
                          "of the escape machinery, composed scanner+parser verdict compared; (b) every token sequence of the parser model "
